@@ -135,6 +135,10 @@ func RandomHolder(r *core.Rng, layout string, issuer3 string) Holder {
 		layout = core.Pick(r, []string{"TD1", "TD2", "TD3", "TD3"})
 	}
 	h := Holder{Layout: layout, Issuer: issuer3, Nationality: issuer3, DOB: randDate(r), DOE: randDate(r), Sex: core.Pick(r, []string{"M", "F", "<"})}
+	if r.Chance(1, 8) {
+		// unknown (parts of the) date of birth are filled with '<' (9303-3 4.8; the check digit counts them as 0)
+		h.DOB = core.Pick(r, []string{h.DOB[:4] + "<<", h.DOB[:2] + "<<<<", "<<<<<<"})
+	}
 	switch layout {
 	case "TD3":
 		h.DocCode = core.Pick(r, []string{"P<", "PM", "PD"})
